@@ -135,6 +135,9 @@ func runCheck(def *propDef, tier, overlayPath string, writeEv bool) (code int) {
 		}
 	}()
 	def.run(c)
+	// every rule enumerates all of its instances in the current source (and all checked-in outputs): a finite space,
+	// covered completely unless something was undecided
+	c.Exhaustive = countUndecided(c.Finds) == 0
 	if tier == "thorough" && overlayPath == "" {
 		thoroughExtras(c, def)
 	}
